@@ -3,7 +3,7 @@
      for every program p, every keyspace h, the reads of [run as_is init p] equal those of a sorted map
      updated by the write operations of p, with rotate / flush / compaction steps changing nothing.
    Proved parts below are named ..._partial. *)
-From FJ Require Import Bytes Codec Lsm LsmP TxP MapP OrderP.
+From FJ Require Import Bytes Codec Lsm Tracker Db LsmP TxP MapP OrderP DbOrderP.
 
 (* a write (insert / remove / batch item) with a seqno above everything in the active memtable: the point
    read of the written key returns the written value (absence for a tombstone); other keys are untouched *)
@@ -43,6 +43,21 @@ Proof. exact reads_agree. Qed.
 Theorem C01_reads_agree_example : run_disciplined tree_init order_example.
 Proof. exact order_example_ok. Qed.
 
+(* ... and the operations of the database model respect that discipline: for EVERY sequence of keyspace creation, single
+   writes, committed batches (transaction commits go through the same commit_batch), clear, memtable rotation, worker
+   steps (flush, journal sealing, maintenance), drains, major compaction with any filter, and bulk ingestion — on every
+   keyspace, for every key and every instant, the point read returns exactly the entry the scan shows.  (Reopen is not
+   among these operations: that is where the premise was violated before the repairs, see C04.) *)
+Theorem C01_db_reads_agree : forall (mode : dbmode) (filters : list (bytes * frule)) (ops : list wop) (ks : kspace) (k : bytes) (I : N),
+  let d := fold_left wstep ops (db_init mode filters) in
+  In ks (d_kss d) ->
+  v_get_ent (k_tree ks) (latest (k_tree ks)) k I = newest k I (v_all (k_tree ks) (latest (k_tree ks))).
+Proof. exact db_reads_agree. Qed.
+
+Theorem C01_db_reads_agree_example :
+  exists ks, In ks (d_kss (fold_left wstep db_example (db_init MPlain []))) /\ v_all (k_tree ks) (latest (k_tree ks)) <> [].
+Proof. exact db_example_nonempty. Qed.
+
 Theorem C01_shadowing_refuted_without_recency :
   value_of (v_get_ent shadow_tree (latest shadow_tree) [107] 10) = Some [1] /\
   value_of (newest [107] 10 (v_all shadow_tree (latest shadow_tree))) = Some [2].
@@ -54,3 +69,5 @@ Print Assumptions C01_point_read_agrees_with_scan_partial.
 Print Assumptions C01_shadowing_refuted_without_recency.
 Print Assumptions C01_reads_agree.
 Print Assumptions C01_reads_agree_example.
+Print Assumptions C01_db_reads_agree.
+Print Assumptions C01_db_reads_agree_example.
